@@ -4,6 +4,7 @@
 //! Nothing in this crate links rust-vmm/vhost: every expectation here is written from the
 //! vhost-user specification / Linux UAPI, never derived from the code under test.
 
+pub mod cli;
 pub mod ctl;
 pub mod json;
 pub mod report;
